@@ -67,6 +67,70 @@ fn run_frozen(wrapped_def: &str, host_call: bool) -> Obs {
     }
 }
 
+/// Splits a program at a top-level statement boundary: module A (prefix, frozen) and module B (rest, loads every
+/// public name of A). Returns None when B rebinds or mutates something A defines (then the two-module program
+/// legitimately differs: frozen values cannot be mutated and loaded names are separate bindings).
+fn run_split(plain: &str, cut_choice: u32) -> Option<Obs> {
+    let lines: Vec<&str> = plain.lines().collect();
+    let starts: Vec<usize> = lines.iter().enumerate().filter(|(_, l)| !l.is_empty() && !l.starts_with(' ') && !l.starts_with("elif ") && !l.starts_with("else:")).map(|x| x.0).collect();
+    if starts.len() < 3 {
+        return None;
+    }
+    let cut = starts[1 + ((cut_choice as u64 * (starts.len() as u64 - 2)) >> 32) as usize];
+    let a_src = lines[..cut].join("\n") + "\n";
+    let b_body = lines[cut..].join("\n") + "\n";
+    let cfg = sl::RunCfg::default();
+    let (a_out, fm) = sl::run_and_freeze("a.star", &a_src, &cfg, &[]);
+    let Some(fm) = fm else {
+        // the failure happens in the prefix: the whole program must behave like the prefix alone
+        return Some(obs_of(&a_out));
+    };
+    // only names that are actually bound (a conditionally assigned variable may be unassigned)
+    let names: Vec<String> = fm.names().map(|n| n.as_str().to_owned()).filter(|n| !n.starts_with('_') && fm.get_owned(n).is_ok()).collect();
+    // a name declared but not bound in A (assigned on a path not taken): reading it in B would be a static
+    // "not found" instead of the run-time "referenced before assignment" - a legitimate difference of the split
+    for n in fm.names().map(|n| n.as_str().to_owned()).filter(|n| fm.get_owned(n).is_err()) {
+        if b_body.split(|c: char| !(c.is_alphanumeric() || c == '_')).any(|w| w == n) {
+            return None;
+        }
+    }
+    // any in-place mutation in B could reach a frozen value of A through an alias: no split then
+    for m in [".append(", ".extend(", ".insert(", ".pop(", ".remove(", ".clear(", ".update(", ".setdefault(", ".popitem(", ".add(", ".discard(", "] = ", "] += ", "] -= ", "] |= ", "] &= ", "] ^= ", " += [", " += {"] {
+        if b_body.contains(m) {
+            return None;
+        }
+    }
+    for n in &names {
+        for l in b_body.lines() {
+            let t = l.trim_start();
+            let lhs = t.split(" = ").next().unwrap_or("");
+            let is_assign = t.contains(" = ") || t.contains("= ") && (t.contains("+=") || t.contains("-=") || t.contains("|=") || t.contains("&=") || t.contains("^=") || t.contains("*="));
+            let mentions = |text: &str| text.split(|c: char| !(c.is_alphanumeric() || c == '_')).any(|w| w == n);
+            if is_assign && mentions(lhs.split("+=").next().unwrap_or(lhs).split("-=").next().unwrap_or(lhs).split("|=").next().unwrap_or(lhs).split("&=").next().unwrap_or(lhs).split("^=").next().unwrap_or(lhs)) {
+                return None;
+            }
+            if t.starts_with("for ") && mentions(t.split(" in ").next().unwrap_or("")) {
+                return None;
+            }
+            for m in [".append(", ".extend(", ".insert(", ".pop(", ".remove(", ".clear(", ".update(", ".setdefault(", ".popitem(", ".add(", ".discard("] {
+                if t.contains(&format!("{n}{m}")) {
+                    return None;
+                }
+            }
+            if t.starts_with(&format!("def {n}(")) {
+                return None;
+            }
+        }
+    }
+    let load = if names.is_empty() { String::new() } else { format!("load(\"a.star\", {})\n", names.iter().map(|n| format!("\"{n}\"")).collect::<Vec<_>>().join(", ")) };
+    let b_out = sl::run_src("b.star", &format!("{load}{b_body}"), &cfg, &[("a.star", &fm)]);
+    let mut o = obs_of(&b_out);
+    let mut tx = a_out.tx.clone();
+    tx.extend(o.tx);
+    o.tx = tx;
+    Some(o)
+}
+
 fn def_only(plain: &str) -> String {
     let mut s = String::from("def main():\n");
     for l in plain.lines() {
@@ -102,7 +166,7 @@ impl Prop for C02 {
         ]
     }
     fn floors(&self) -> Vec<(&'static str, f64)> {
-        vec![("runtime_failure", 0.10), ("call", 0.3), ("nontrivial", 0.5)]
+        vec![("runtime_failure", 0.10), ("call", 0.3), ("nontrivial", 0.5), ("two_modules", 0.3)]
     }
     fn has_exhaustive(&self) -> bool {
         true
@@ -121,19 +185,27 @@ impl Prop for C02 {
                     continue;
                 }
                 let picks: Vec<bool> = (0..n).map(|i| mask >> i & 1 == 1).collect();
-                sink(check_program(&marked, &[], &picks, "[fixed program] "));
+                sink(check_program(&marked, &[], &picks, "[fixed program] ", mask.wrapping_mul(0x9E37_79B9)));
             }
         }
     }
+    fn render(&self, _ctx: &mut Ctx, ch: &mut Choices) -> String {
+        let no_mutation = ch.bool();
+        let opts = prog::Opts { profile: prog::Profile::Full, fail_pct: 30, no_mutation, ..Default::default() };
+        let mut g = prog::Gen::new(ch, opts);
+        prog::render_plain(&g.program())
+    }
     fn run(&self, _ctx: &mut Ctx, ch: &mut Choices) -> CaseResult {
-        let opts = prog::Opts { profile: prog::Profile::Full, fail_pct: 30, ..Default::default() };
+        let no_mutation = ch.bool();
+        let opts = prog::Opts { profile: prog::Profile::Full, fail_pct: 30, no_mutation, ..Default::default() };
         let mut g = prog::Gen::new(ch, opts);
         let marked = g.program();
         let labels = g.labels.clone();
         let (nc, nf) = prog::count_markers(&marked);
         // variant 1: random subset (choices decide per marker; 0 -> not wrapped)
         let picks: Vec<bool> = (0..(nc + nf)).map(|_| ch.bool()).collect();
-        check_program(&marked, &labels, &picks, "")
+        let cut = ch.raw();
+        check_program(&marked, &labels, &picks, "", cut)
     }
 }
 
@@ -151,7 +223,7 @@ const FIXED_PROGRAMS: &[&str] = &[
     "emit(⟦[1, 2]⟧ + ⟦[3]⟧)\nemit(⟦(1,)⟧ * ⟦2⟧)\nemit(⟦1⟧ << ⟦(-1)⟧)\n",
 ];
 
-fn check_program(marked: &str, labels: &[&'static str], picks: &[bool], prefix: &str) -> CaseResult {
+fn check_program(marked: &str, labels: &[&'static str], picks: &[bool], prefix: &str, cut: u32) -> CaseResult {
     {
         let plain = prog::render_plain(marked);
         let (nc, nf) = prog::count_markers(marked);
@@ -177,6 +249,16 @@ fn check_program(marked: &str, labels: &[&'static str], picks: &[bool], prefix: 
             ("fully opaque def main() frozen, loaded and called", run_frozen(&def_only(&full), false), &full),
             ("def main() frozen, called from the host", run_frozen(&def_only(&plain), true), &plain),
         ];
+        let mut variants = variants;
+        let split_plain = run_split(&plain, cut);
+        let split_full = run_split(&full, cut);
+        if let Some(o) = split_plain {
+            r.label("two_modules");
+            variants.push(("prefix in a frozen module, rest in a module that loads it", o, &plain));
+        }
+        if let Some(o) = split_full {
+            variants.push(("fully opaque: prefix in a frozen module, rest in a module that loads it", o, &full));
+        }
         r.evals = 1 + variants.len() as u64;
         for (name, o, text) in &variants {
             if o.class == "limit" {
